@@ -4,35 +4,35 @@
 # quick checks against the patched tree (TORCHTT_REPO=/tmp/mut), stores /verif/seeded/<id>/ {patch.diff, demo.py, note.md, meta.json}.
 set -u
 V="$1"; ID="$2"; shift 2; PROPS="$@"; MAIN="$1"
-W=/tmp/mut
+W=${MUTW:-/tmp/mut}
 git -C $W checkout -q --detach "$(git -C /repo rev-parse HEAD)" 2>/dev/null; git -C $W checkout -q -- .; git -C $W clean -fdq
-(cd $W && timeout 900 /venv/bin/python "$V/demo.py" >/tmp/seed_demo0.log 2>&1); D0=$?
+(cd $W && timeout 900 /venv/bin/python "$V/demo.py" >$W.demo0.log 2>&1); D0=$?
 if ! git -C $W apply "$V/patch.diff"; then echo "PATCH DOES NOT APPLY"; exit 3; fi
-(cd $W && timeout 900 /venv/bin/python "$V/demo.py" >/tmp/seed_demo1.log 2>&1); D1=$?
-if [ "${SKIP_TESTS:-0}" = "1" ]; then echo "skipped" > /tmp/seed_tests.log; else (cd $W && timeout 2400 /venv/bin/python -m pytest -q -p no:cacheprovider --timeout=900 tests/ 2>&1 | tail -1) > /tmp/seed_tests.log; fi
-echo "demo unpatched exit=$D0, patched exit=$D1 ($(tail -1 /tmp/seed_demo1.log | cut -c1-160)); tests: $(cat /tmp/seed_tests.log)"
-: > /tmp/seed_checks.log
+(cd $W && timeout 900 /venv/bin/python "$V/demo.py" >$W.demo1.log 2>&1); D1=$?
+if [ "${SKIP_TESTS:-0}" = "1" ]; then echo "skipped" > $W.tests.log; else (cd $W && OMP_NUM_THREADS=2 timeout 2400 /venv/bin/python -m pytest -q -p no:cacheprovider --timeout=900 tests/ 2>&1 | tail -1) > $W.tests.log; fi
+echo "demo unpatched exit=$D0, patched exit=$D1 ($(tail -1 $W.demo1.log | cut -c1-160)); tests: $(cat $W.tests.log)"
+: > $W.checks.log
 for p in $PROPS; do
   out=$(TORCHTT_REPO=$W /verif/check $p --tier ${TIER:-quick} 2>&1); rc=$?
   echo "-- $p ${TIER:-quick} rc=$rc: $(echo "$out" | grep -E 'tier=' | cut -c1-140)"; echo "$out" | grep -E "^  key=" | cut -c1-300 | head -3
-  echo "$p ${TIER:-quick} rc=$rc $(echo "$out" | grep -E '^  key=' | head -2 | cut -c1-200 | tr '\n' ' ')" >> /tmp/seed_checks.log
+  echo "$p ${TIER:-quick} rc=$rc $(echo "$out" | grep -E '^  key=' | head -2 | cut -c1-200 | tr '\n' ' ')" >> $W.checks.log
 done
 git -C $W checkout -q -- .; git -C $W clean -fdq
 mkdir -p /verif/seeded/$ID; cp "$V/patch.diff" "$V/demo.py" /verif/seeded/$ID/; [ -f "$V/note.md" ] && cp "$V/note.md" /verif/seeded/$ID/
-/venv/bin/python - "$ID" "$MAIN" "$D0" "$D1" <<'PY'
+/venv/bin/python - "$ID" "$MAIN" "$D0" "$D1" "$W" <<'PY'
 import sys, json, os
-ID, MAIN, D0, D1 = sys.argv[1:5]
+ID, MAIN, D0, D1, W = sys.argv[1:6]
 d = '/verif/seeded/' + ID
 note = open(d + '/note.md').read() if os.path.exists(d + '/note.md') else ''
 old = json.load(open(d + '/meta.json')) if os.path.exists(d + '/meta.json') else {}
 checks = old.get('checks_run', [])
-for l in open('/tmp/seed_checks.log'):
+for l in open(W + '.checks.log'):
     l = l.strip()
     if l and l not in checks:
         checks.append(l)
 meta = {'id': ID, 'breaks_property': MAIN, 'origin': 'independent sub-agent given only the property text and a scratch worktree',
         'needs_to_manifest': note.strip()[:1200],
-        'confirmed': {'demo_exit_unpatched': int(D0), 'demo_exit_patched': int(D1), 'test_suite_with_patch': open('/tmp/seed_tests.log').read().strip() if open('/tmp/seed_tests.log').read().strip() != 'skipped' else old.get('confirmed', {}).get('test_suite_with_patch', 'skipped')},
+        'confirmed': {'demo_exit_unpatched': int(D0), 'demo_exit_patched': int(D1), 'test_suite_with_patch': open(W + '.tests.log').read().strip() if open(W + '.tests.log').read().strip() != 'skipped' else old.get('confirmed', {}).get('test_suite_with_patch', 'skipped')},
         'what_was_run': 'tools/seed_eval.sh: scratch worktree /tmp/mut at /repo HEAD; demo.py before/after `git apply patch.diff`; full pytest suite with the patch; TORCHTT_REPO=/tmp/mut ./check <prop>',
         'checks_run': checks,
         'caught_by': sorted({c.split()[0] for c in checks if ' rc=1 ' in c + ' '})}
